@@ -20,6 +20,13 @@ NA = {
 }
 
 CHECKS = {
+ "C10": dict(
+   level="exploration",
+   text="Seeded histories of 1-4 files x 0-3 documents (all YAML layout classes, JSON streams, one-document formats in multi-file sequences, stdin) are processed by one real yq process under a seeded short-read schedule and compared with the join of fresh single-document reference processes (O10.1/O10.2), with id conservation/order (O10.3), ground-truth provenance (O10.4), schedule transparency (O10.5), eval-all vs eval (O10.6) and identity document count by an independent splitter (O10.7). Sampling of histories and schedules: evidence, not proof.",
+   ref="DESIGN.md §5.1",
+   note="Trusted: yq on one document in a fresh process is the reference (a defect identical in the single-document run is out of scope); the join model of `---`; gopkg.in/yaml.v3 as independent document splitter; read-chunk delivery is stubbed below bufio.",
+   technique="deterministic process-level simulation of input histories and read schedules against single-document reference runs (refinement of the one-document behaviour), shrinking to a replayable scenario",
+   engine="procsim"),
  "C12": dict(
    level="fault_enumeration",
    text="Per sampled (expression, file, flags, TMPDIR placement) scenario the finite set of step boundaries of the in-place protocol is decided completely by the snapshot invariant (target is OLD or NEW at every hook event, OLD never after NEW); errno/kill/partial-write/failed-close/read-error/EXDEV faults drawn inside the observed step and byte ranges are executed in fresh processes of the real binary and judged by exit-status/content/mode oracles. Scenarios are sampled, fault points per scenario are enumerated: evidence, not proof.",
